@@ -101,8 +101,11 @@ def run_case(case, acc):
                 vv = np.concatenate([x.ravel() for x in v])
                 ww = np.concatenate([x.ravel() for x in w_])
                 lhs, rhs = ww @ Jv, JTw @ vv
+                # relative to the products; the floor covers responses whose derivative (nearly) vanishes: both
+                # products are then pure solver noise (iterative linear solvers stop at an absolute residual of
+                # 1e-13..1e-14 on systems with O(1) entries), which is bounded relative to |w||v|, not to |Jv|
                 tol = 1e-7 * (np.linalg.norm(ww) * np.linalg.norm(Jv) + np.linalg.norm(JTw) * np.linalg.norm(vv)) \
-                    + 1e-13
+                    + 1e-9 * np.linalg.norm(ww) * np.linalg.norm(vv) + 1e-13
                 acc.count('obs:jacvec-duality')
                 if not abs(lhs - rhs) <= tol:
                     bad.append(('jacvec', abs(lhs - rhs), tol))
